@@ -62,6 +62,8 @@ type VerifOp struct {
 	To       string        `json:"to,omitempty"`    // rename: new name
 	Mop      string        `json:"mop,omitempty"`   // crash: create | delete | rename
 	Point    string        `json:"point,omitempty"` // crash: hook point name, e.g. delete.afterRecord
+	Public   bool          `json:"public,omitempty"` // create / crash create: dataset with publicNamespaces
+	Slot     string        `json:"slot,omitempty"`   // hold / stale: dataset handle; keep / cont: continuation
 }
 
 type VerifCase struct {
@@ -91,6 +93,8 @@ type VerifOpObs struct {
 	Found   bool         `json:"found,omitempty"`
 	NewSeqs int          `json:"newseqs,omitempty"`
 	Names   []string     `json:"names,omitempty"`  // names / metas
+	Ids     []int        `json:"ids,omitempty"`    // names: internal dataset id of each name (same order)
+	HasCont bool         `json:"hascont,omitempty"` // keep: the first page came with a continuation
 	Hit     bool         `json:"hit,omitempty"`    // crash: the hook point was reached (the op died there)
 	Before  [][]int      `json:"before,omitempty"` // gc / census: [family, dataset id, number of keys], sorted
 	After   [][]int      `json:"after,omitempty"`  // gc
@@ -157,6 +161,15 @@ type verifHub struct {
 	dir   string
 	store *Store
 	dsm   *DsManager
+	held  map[string]*Dataset       // dataset handles obtained earlier (die with the process)
+	conts map[string][]*RelatedFrom // continuations of paged queries (plain data: survive a restart)
+}
+
+func verifCreateCfg(public bool) *CreateDatasetConfig {
+	if !public {
+		return nil
+	}
+	return &CreateDatasetConfig{PublicNamespaces: []string{"http://v/"}}
 }
 
 func (h *verifHub) open() {
@@ -176,7 +189,7 @@ func (h *verifHub) close() {
 func VerifC07Run(c VerifCase, dir string) (obs VerifObs) {
 	_ = os.MkdirAll(dir, 0o755)
 	defer os.RemoveAll(dir)
-	h := &verifHub{dir: dir}
+	h := &verifHub{dir: dir, held: map[string]*Dataset{}, conts: map[string][]*RelatedFrom{}}
 	h.open()
 	defer h.close()
 	obs.Outcome = "ok"
@@ -246,12 +259,91 @@ func verifDoOp(h *verifHub, op VerifOp, idx int, times map[int]int64, tokens map
 	store := h.store
 	switch op.Op {
 	case "create":
-		if _, err := h.dsm.CreateDataset(op.Ds, nil); err != nil {
+		if _, err := h.dsm.CreateDataset(op.Ds, verifCreateCfg(op.Public)); err != nil {
 			oo.Err = err.Error()
 		}
 	case "restart":
 		h.close()
 		h.open()
+		h.held = map[string]*Dataset{}
+	case "hold":
+		ds := h.dsm.GetDataset(op.Ds)
+		if ds == nil {
+			oo.Err = "no dataset"
+			return
+		}
+		h.held[op.Slot] = ds
+	case "stale":
+		// a write through a handle obtained earlier (possibly before the dataset was deleted / collected)
+		ds := h.held[op.Slot]
+		if ds == nil {
+			oo.Err = "no handle"
+			return
+		}
+		ents, err := verifParse(store, op.Ents)
+		if err != nil {
+			oo.Err = "parse: " + err.Error()
+			return
+		}
+		for _, e := range ents {
+			oo.Lens = append(oo.Lens, verifLen(e))
+		}
+		if err := ds.StoreEntities(ents); err != nil {
+			oo.Err = err.Error()
+		}
+		time.Sleep(time.Microsecond)
+	case "keep":
+		// first page of a paged relation query; the continuation is kept for a later "cont"
+		froms, err := store.ToRelatedFrom(op.Starts, op.Pred, op.Inverse, op.Datasets, 1<<62)
+		if err != nil {
+			oo.Err = err.Error()
+			return
+		}
+		for _, f := range froms {
+			if f == nil {
+				oo.Err = "unknown start"
+				return
+			}
+		}
+		res, err := store.GetManyRelatedEntitiesAtTime(froms, op.Limit, true)
+		if err != nil {
+			oo.Err = err.Error()
+			return
+		}
+		page := []VerifRel{}
+		for _, r := range res.Relations {
+			id := ""
+			if r.RelatedEntity != nil {
+				id = r.RelatedEntity.ID
+			}
+			page = append(page, VerifRel{Start: r.StartURI, Pred: r.PredicateURI, ID: id})
+		}
+		oo.RPages = [][]VerifRel{page}
+		h.conts[op.Slot] = res.Cont
+		oo.HasCont = len(res.Cont) > 0
+	case "cont":
+		froms := h.conts[op.Slot]
+		oo.RPages = [][]VerifRel{}
+		for p := 0; p < 2000 && len(froms) > 0; p++ {
+			res, err := store.GetManyRelatedEntitiesAtTime(froms, op.Limit, true)
+			if err != nil {
+				oo.Err = err.Error()
+				return
+			}
+			page := []VerifRel{}
+			for _, r := range res.Relations {
+				id := ""
+				if r.RelatedEntity != nil {
+					id = r.RelatedEntity.ID
+				}
+				page = append(page, VerifRel{Start: r.StartURI, Pred: r.PredicateURI, ID: id})
+			}
+			oo.RPages = append(oo.RPages, page)
+			if op.Limit <= 0 {
+				break
+			}
+			froms = res.Cont
+		}
 	case "delete":
 		if err := h.dsm.DeleteDataset(op.Ds); err != nil {
 			oo.Err = err.Error()
@@ -275,6 +367,13 @@ func verifDoOp(h *verifHub, op VerifOp, idx int, times map[int]int64, tokens map
 			oo.Names = append(oo.Names, n.Name)
 		}
 		sort.Strings(oo.Names)
+		for _, n := range oo.Names {
+			if ds := h.dsm.GetDataset(n); ds != nil {
+				oo.Ids = append(oo.Ids, int(ds.InternalID))
+			} else {
+				oo.Ids = append(oo.Ids, -1)
+			}
+		}
 	case "metas":
 		// names of the live (not deleted) dataset entities in core.Dataset
 		oo.Names = []string{}
@@ -319,7 +418,7 @@ func verifDoOp(h *verifHub, op VerifOp, idx int, times map[int]int64, tokens map
 			var err error
 			switch op.Mop {
 			case "create":
-				_, err = h.dsm.CreateDataset(op.Ds, nil)
+				_, err = h.dsm.CreateDataset(op.Ds, verifCreateCfg(op.Public))
 			case "delete":
 				err = h.dsm.DeleteDataset(op.Ds)
 			case "rename":
@@ -333,6 +432,7 @@ func verifDoOp(h *verifHub, op VerifOp, idx int, times map[int]int64, tokens map
 		}()
 		h.close()
 		h.open()
+		h.held = map[string]*Dataset{}
 	case "batch":
 		ds := h.dsm.GetDataset(op.Ds)
 		if ds == nil {
